@@ -39,8 +39,8 @@ def cases_from_vectors(ctx, limit):
     return [V.mkcase("vec%d" % k, v["unlock"], v["lock"], v["flags"], "vector") for k, v in enumerate(vs)]
 
 
-FAMILIES_QUICK = ["unary", "shift", "flow4", "nonmin", "binary", "two2", "locktime", "uflow4", "wide"]
-FAMILIES_THOROUGH = ["unary", "shift", "flow5", "nonmin", "binary", "ternary", "two3", "locktime", "uflow4", "wide"]
+FAMILIES_QUICK = ["unary", "shift", "flow4", "nonmin", "binary", "two2", "locktime", "uflow4", "wide", "alias"]
+FAMILIES_THOROUGH = ["unary", "shift", "flow5", "nonmin", "binary", "ternary", "two3", "locktime", "uflow4", "wide", "alias"]
 
 
 def cases_from_model(ctx, per_family):
@@ -58,8 +58,7 @@ def cases_from_model(ctx, per_family):
         total += len(em)
         # programs the specification itself does not model (items above ModelLimit) are not replayed
         em = [o for o in em if o["st"] not in ("unmodelled", "toobig")]
-        if len(em) > per_family:
-            em = rng.sample(em, per_family)
+        em = V.stratified_sample(em, per_family, rng)
         for k, o in enumerate(em):
             fl = 0
             if o["cltv"]:
